@@ -1632,7 +1632,7 @@ private:
       void SetBuffer(const char * srcBytes, uint32 srcStrlen)
       {
          memcpy(_smallBuffer, srcBytes, srcStrlen);
-         _smallBuffer[srcStrlen] = '\0';  // make sure we're NUL terminated (could be an issue if we're shrinking)
+         if (srcStrlen < sizeof(_smallBuffer)) _smallBuffer[srcStrlen] = '\0';  // make sure we're NUL terminated (could be an issue if we're shrinking); a full buffer is terminated by _ssoFreeBytesLeft==0
          SetLength(srcStrlen);
       }
 
